@@ -57,6 +57,7 @@ type Case struct {
 	MaxDir   uint64   `json:"max_dir,omitempty"`
 	External bool     `json:"external,omitempty"`
 	Others   int      `json:"others,omitempty"` // C05: other databases opened in the same process first
+	Variant  int      `json:"variant,omitempty"`
 }
 
 // KnownLateWrite is the id of the known finding "writes through ended handles are accepted".
@@ -105,24 +106,32 @@ func dbRoot() string {
 	return d
 }
 
-// NewWorld creates fresh directories and opens the database.
-func NewWorld(c Case, r *ev.Result) (*World, error) {
+func newWorldStruct(c Case, r *ev.Result) *World {
 	if c.Roots < 1 {
 		c.Roots = 1
 	}
-	w := &World{Case: c, R: r, M: model.New(), handles: map[int]*handle{}, byHash: map[[32]byte]string{}, Stats: map[string]int{}, ctx: context.Background()}
+	return &World{Case: c, R: r, M: model.New(), handles: map[int]*handle{}, byHash: map[[32]byte]string{}, Stats: map[string]int{}, ctx: context.Background()}
+}
+
+func (w *World) setCfg() {
+	var roots []string
+	for i := 0; i < w.Case.Roots; i++ {
+		roots = append(roots, filepath.Join(w.Dir, fmt.Sprintf("root%d", i)))
+	}
+	w.Cfg = config.Config{
+		Storage: config.Storage{DbPath: filepath.Join(w.Dir, "db"), MaxDirCount: w.Case.MaxDir, RootDirs: roots, GCPeriod: time.Hour},
+		WPool:   config.WPool{NumWorkers: 2, SendDuration: time.Millisecond},
+	}
+}
+
+// NewWorld creates fresh directories and opens the database.
+func NewWorld(c Case, r *ev.Result) (*World, error) {
+	w := newWorldStruct(c, r)
 	w.Dir = filepath.Join(dbRoot(), fmt.Sprintf("w%d-%d", os.Getpid(), dirCounter.Add(1)))
 	if err := os.MkdirAll(w.Dir, 0o755); err != nil {
 		return nil, err
 	}
-	var roots []string
-	for i := 0; i < c.Roots; i++ {
-		roots = append(roots, filepath.Join(w.Dir, fmt.Sprintf("root%d", i)))
-	}
-	w.Cfg = config.Config{
-		Storage: config.Storage{DbPath: filepath.Join(w.Dir, "db"), MaxDirCount: c.MaxDir, RootDirs: roots, GCPeriod: time.Hour},
-		WPool:   config.WPool{NumWorkers: 2, SendDuration: time.Millisecond},
-	}
+	w.setCfg()
 	if err := w.open(); err != nil {
 		os.RemoveAll(w.Dir)
 		return nil, err
@@ -318,7 +327,12 @@ func (w *World) pickActor(op Op) (id int, ok bool) {
 		return ghostID, true
 	}
 	if op.Late {
-		ended := w.M.EndedTxs()
+		var ended []int
+		for _, id := range w.M.EndedTxs() {
+			if h := w.handles[id]; h != nil && h.tx != nil { // handles do not survive a process restart
+				ended = append(ended, id)
+			}
+		}
 		if len(ended) == 0 {
 			return 0, false
 		}
@@ -636,6 +650,11 @@ func (w *World) Apply(i int, op Op) bool {
 				w.Stats["big"]++
 			}
 		}
+		if id != 0 && op.K == "set" {
+			if t := w.M.Tx(id); t != nil && t.Open && t.HasWrite(key) {
+				w.Stats["intx-superseded"]++
+			}
+		}
 		want := w.M.Write(id, key, v)
 		w.R.Logf("%s %s key=%q len=%d via=%q -> %s", what, actorName(w, id), key, op.Len, op.Via, Class(err))
 		if (op.Late || op.Ghost) && want == model.ErrTxNotFound {
@@ -734,4 +753,48 @@ func (w *World) Apply(i int, op Op) bool {
 		panic("harness: unknown op kind " + op.K)
 	}
 	return true
+}
+
+// ApplyDry applies only the model effects of op (used to rebuild the model in a fresh process).
+func (w *World) ApplyDry(i int, op Op) {
+	w.step = i
+	switch op.K {
+	case "begin":
+		if len(w.M.OpenTxs()) >= 6 {
+			return
+		}
+		lvl := op.Lvl
+		if lvl < 0 || lvl > 3 {
+			lvl = model.RC
+		}
+		id := w.M.Begin(lvl)
+		w.handles[id] = &handle{id: id, level: lvl}
+	case "set", "del":
+		id, ok := w.pickActor(op)
+		if !ok || op.Late || op.Ghost {
+			return
+		}
+		key := w.key(op.Key)
+		if op.K == "del" && key == "" {
+			return
+		}
+		v := model.Val{Del: true}
+		if op.K == "set" {
+			v = model.Val{Len: op.Len, Seed: uint32(i + 1)}
+			w.noteContent(model.Bytes(v), fmt.Sprintf("content written at step %d to %q by %s", i, key, actorName(w, id)))
+		}
+		w.M.Write(id, key, v)
+	case "commit", "rollback":
+		id, ok := w.pickActor(op)
+		if !ok || id <= 0 {
+			return
+		}
+		if op.K == "commit" {
+			w.M.Commit(id)
+		} else {
+			w.M.Rollback(id)
+		}
+	case "reopen", "newproc":
+		w.M.Reopen()
+	}
 }
